@@ -49,7 +49,8 @@ def key_pool(b, rng):
     hexs = [hashmap(algorithm='md5')(1, x=2), hashmap(algorithm='sha1')('a'), hashmap(algorithm='md5')(2)]
     pkl = [picklemap(serializer='pickle')(1, x=2), picklemap(serializer='dill')('a'), picklemap(serializer='pickle')(3)]
     ints = [1, 7, -3, 0]
-    hostile = ['a-b', 'a_b', '1', '.I_0123456789abcdef0123456789abcdef', 'RANK_0', 'K_means', 'xK_K_y']
+    hostile = ['a-b', 'a_b', '1', '.I_0123456789abcdef0123456789abcdef', 'RANK_0', 'K_means', 'xK_K_y',
+               'P' * 215 + 'a', 'P' * 215 + 'b']       # long keys that differ only at the very end
     if k in ('dict_archive', 'null'):
         return raw + strs + hexs + pkl + ints + hostile + [None, 2.5]
     if is_json(b):
